@@ -261,14 +261,15 @@ def shard_exhaustive(task):
 def strategies():
     from hypothesis import strategies as st
 
-    lit_chars = st.sampled_from(list("ab |}{#'\"\\<>&é") + ["${", "%>", "\\n"])
+    lit_chars = st.sampled_from(list("ab |}{#'\"\\<>&é") + ["${", "%>", "\\n", "\x01", "\x01"])  # \x01 -> backslash + real newline
     def lit(s, q):
         body = s.replace("\\", "\\\\").replace("\n", "\\n")
+        cont = "\\\n"  # a line continuation inside the literal (not part of its value)
         if q in ("'", '"'):
             body = body.replace(q, "\\" + q)
-            return q + body + q
+            return q + body.replace("\x01", cont) + q
         body = body.replace(q[0], "\\" + q[0])
-        return q + body + q
+        return q + body.replace("\x01", cont) + q
     strlit = st.builds(lit, st.lists(lit_chars, max_size=6).map("".join), st.sampled_from(["'", '"', "'''", '"""']))
     leaf = st.one_of(st.just("v"), st.just("v"), strlit, st.just("d['k']"), st.just("d['a|b}']"), st.just('d["a|b}"]'))
 
